@@ -210,6 +210,6 @@ PARTS = [
     Part("direct", eval_direct, {"quick": 5000, "thorough": 200000}, strategy=lambda tier: gcc_shape(), min_nontrivial={"quick": 1500, "thorough": 40000}),
     Part("service", eval_service, {"quick": 500, "thorough": 10000}, strategy=strategy_service, min_nontrivial={"quick": 100, "thorough": 2000}),
 ]
-MIN_SHARE = {"direct": {"insertions_above_pinch>=2": 0.06, "insertions_below_pinch>=2": 0.06, "threshold": 0.1, "zeros>=2": 0.1}}
+MIN_SHARE = {"direct": {"insertions_above_pinch>=2": 0.04, "insertions_below_pinch>=2": 0.06, "threshold": 0.1, "zeros>=2": 0.1}}
 
 FUZZ = {"direct": None}  # parts also driven by the coverage-guided supplement (thorough tier)
